@@ -75,6 +75,7 @@ type ZIgnBad struct {
 	dig.In `ignore-unexported:"maybe"`
 	A      V0
 }
+
 // an embedded (anonymous) non-struct dependency declared BEFORE the struct that brings in dig.In / dig.Out
 type ZSrc interface{ ZNext() int }
 type ZSrc2 interface{ ZNext2() int }
